@@ -69,8 +69,14 @@ namespace nmtools::meta
                 constexpr auto N = index::product(shape);
                 return as_value_v<clipped_size_t<N>>;
             } else if constexpr (is_index_array_v<shape_t>) {
-                using type = get_index_element_type_t<shape_t>;
-                return as_value_v<type>;
+                using element_t = get_index_element_type_t<shape_t>;
+                if constexpr (is_clipped_integer_v<element_t>) {
+                    // the product of extents is not bounded by the bound of a single clipped extent
+                    using type = typename element_t::value_type;
+                    return as_value_v<type>;
+                } else {
+                    return as_value_v<element_t>;
+                }
             } else {
                 using type = error::INDEX_PRODUCT_UNSUPPORTED<shape_t>;
                 return as_value_v<type>;
